@@ -11,6 +11,7 @@ import (
 	"encoding/binary"
 	"encoding/json"
 	"fmt"
+	"io"
 	"math/rand"
 	"os"
 	"path/filepath"
@@ -32,6 +33,47 @@ type c04Case struct {
 	Order    string `json:"order"`
 	Keys     string `json:"keys"`
 	Special  string `json:"special"`
+	Meta     string `json:"meta"`
+}
+
+// c04meta returns the metadata pairs of a metadata class (nil = none)
+func c04meta(class string, rng *rand.Rand) [][2][]byte {
+	rnd := func(n int) []byte {
+		b := make([]byte, n)
+		rng.Read(b)
+		return b
+	}
+	switch class {
+	case "typed":
+		return [][2][]byte{{[]byte("index_kind"), []byte("cid-to-offset-and-size")}, {[]byte("epoch"), rnd(8)}, {[]byte("rootCid"), rnd(36)}, {[]byte("network"), []byte("mainnet")}}
+	case "empty-pair":
+		return [][2][]byte{{[]byte{}, []byte{}}, {[]byte("k"), []byte{}}}
+	case "max", "max-1":
+		var out [][2][]byte
+		for i := 0; i < 255; i++ {
+			out = append(out, [2][]byte{rnd(255), rnd(255)})
+		}
+		if class == "max-1" {
+			out[254][1] = out[254][1][:254]
+		}
+		return out
+	}
+	return nil
+}
+
+// eagerEOF is an io.ReaderAt over a byte slice that reports io.EOF together with a complete read that ends exactly at the
+// end of the data (the io.ReaderAt contract allows either nil or io.EOF there; os.File and bytes.Reader return nil)
+type eagerEOF []byte
+
+func (e eagerEOF) ReadAt(p []byte, off int64) (int, error) {
+	if off < 0 || off > int64(len(e)) {
+		return 0, io.EOF
+	}
+	n := copy(p, e[off:])
+	if off+int64(n) == int64(len(e)) {
+		return n, io.EOF
+	}
+	return n, nil
 }
 
 type c04Bucket struct {
@@ -52,6 +94,7 @@ type c04Obs struct {
 	Layout  []c04Bucket `json:"layout"`
 	Total   int         `json:"total"`
 	Detail  string      `json:"detail"`
+	MetaOK  bool        `json:"metaok"`
 	Sampled bool        `json:"sampled"`
 	NKeys   int         `json:"nkeys"`
 	AvgLoad int         `json:"avgload"`  // inserts per bucket given the declared item count
@@ -65,7 +108,7 @@ type c04kv struct {
 	want []byte // what a lookup must return when it differs from val (zero-padded short value)
 }
 
-func c04build(format string, vsize int, declared uint, kvs []c04kv, path string) (outcome, detail string) {
+func c04build(format string, vsize int, declared uint, kvs []c04kv, path string, meta [][2][]byte) (outcome, detail string) {
 	tmp := filepath.Join(filepath.Dir(path), "tmp-"+filepath.Base(path))
 	os.MkdirAll(tmp, 0o755)
 	defer os.RemoveAll(tmp)
@@ -83,6 +126,12 @@ func c04build(format string, vsize int, declared uint, kvs []c04kv, path string)
 				return
 			}
 			defer b.Close()
+			for _, m := range meta {
+				if err := b.Metadata().Add(m[0], m[1]); err != nil {
+					outcome, detail = "err", "Metadata.Add: "+err.Error()
+					return
+				}
+			}
 			for _, kv := range kvs {
 				if err := b.Insert(kv.key, kv.val); err != nil {
 					outcome, detail = "err", "Insert: "+err.Error()
@@ -137,12 +186,23 @@ func c04build(format string, vsize int, declared uint, kvs []c04kv, path string)
 	return
 }
 
-func c04lookup(format string, path string, kvs []c04kv) (found []bool, detail string) {
-	f, err := os.Open(path)
-	if err != nil {
-		return nil, err.Error()
+func c04lookup(format string, path string, kvs []c04kv, eager bool, meta [][2][]byte) (found []bool, metaok bool, detail string) {
+	var f io.ReaderAt
+	if eager {
+		raw, err := os.ReadFile(path)
+		if err != nil {
+			return nil, false, err.Error()
+		}
+		f = eagerEOF(raw)
+	} else {
+		fl, err := os.Open(path)
+		if err != nil {
+			return nil, false, err.Error()
+		}
+		defer fl.Close()
+		f = fl
 	}
-	defer f.Close()
+	metaok = true
 	found = make([]bool, len(kvs))
 	detail2 := ""
 	_ = detail2
@@ -153,6 +213,13 @@ func c04lookup(format string, path string, kvs []c04kv) (found []bool, detail st
 			if err != nil {
 				detail = "Open: " + err.Error()
 				return
+			}
+			if meta != nil {
+				got := db.Header.Metadata
+				metaok = got != nil && len(got.KeyVals) == len(meta)
+				for i := 0; metaok && i < len(meta); i++ {
+					metaok = bytes.Equal(got.KeyVals[i].Key, meta[i][0]) && bytes.Equal(got.KeyVals[i].Value, meta[i][1])
+				}
 			}
 			// the value a Lookup returned must stay that key's value while later lookups run (results are compared
 			// after the whole pass), also under concurrent lookups on the same handle
@@ -433,19 +500,36 @@ func TestVerifC04(t *testing.T) {
 			o.MustErr = true
 		}
 		p1, p2 := filepath.Join(dir, "a.index"), filepath.Join(dir, "b.index")
-		o.Outcome, o.Detail = c04build(c.Fmt, vsize, declared, kvs, p1)
+		meta := c04meta(c.Meta, rng)
+		o.MetaOK = true
+		o.Outcome, o.Detail = c04build(c.Fmt, vsize, declared, kvs, p1, meta)
 		if o.Outcome == "ok" {
 			// second build with another insertion order: the file must be byte-identical
 			kv2 := append([]c04kv{}, kvs...)
 			rng.Shuffle(len(kv2), func(i, j int) { kv2[i], kv2[j] = kv2[j], kv2[i] })
-			oc2, _ := c04build(c.Fmt, vsize, declared, kv2, p2)
+			oc2, _ := c04build(c.Fmt, vsize, declared, kv2, p2, meta)
 			b1, _ := os.ReadFile(p1)
 			b2, _ := os.ReadFile(p2)
 			o.Det = oc2 == "ok" && bytes.Equal(b1, b2)
 			var d string
-			o.Found, d = c04lookup(c.Fmt, p1, kvs)
+			o.Found, o.MetaOK, d = c04lookup(c.Fmt, p1, kvs, false, meta)
 			if d != "" {
 				o.Outcome, o.Detail = "panic", d
+			} else {
+				// second pass through an io.ReaderAt with the other legal end-of-data behaviour
+				f2, mok, d2 := c04lookup(c.Fmt, p1, kvs, true, meta)
+				if d2 != "" {
+					o.Outcome, o.Detail = "panic", "eager-EOF ReaderAt: "+d2
+				}
+				o.MetaOK = o.MetaOK && mok
+				for i := range o.Found {
+					if i < len(f2) && !f2[i] {
+						if o.Found[i] && o.Detail == "" {
+							o.Detail = "lookup wrong through an io.ReaderAt that returns io.EOF with a complete read at the end of the data"
+						}
+						o.Found[i] = false
+					}
+				}
 			}
 			if c.Fmt == "sized" {
 				if lay, total, ok := c04dumpSized(p1); ok {
